@@ -272,9 +272,51 @@ def rule_cl_exit(cx, rep, port='py'):
     rep.decide(oks, 'other errors', ei, 'SyntaxError -> syntax error; anything else -> unexpected', 'syntax/unexpected classification changed')
     # out-format table
     f = p.func('rbql_csv', 'interpret_named_csv_format')
-    t = node_text(f, 2000).replace(' ', '')
-    okf = "ifformat_name=='monocolumn':return('','monocolumn')" in t and "ifformat_name=='csv':return(',','quoted')" in t and "ifformat_name=='tsv':return('\\t','simple')" in t
-    rep.decide(okf, 'out-format table', f, 'csv -> (",", quoted), tsv -> (TAB, simple), monocolumn', 'named output formats changed')
+    want_fmt = {'monocolumn': ('', 'monocolumn'), 'csv': (',', 'quoted'), 'tsv': ('\t', 'simple')}
+    got_fmt = {}
+    from .. import pathsem
+    fparam = f.args.args[0].arg
+    fps = pathsem.paths(f)
+
+    def pair_of(e):
+        if isinstance(e, (ast.Tuple, ast.List)) and len(e.elts) == 2 and all(isinstance(x, ast.Constant) and isinstance(x.value, str) for x in e.elts):
+            return (e.elts[0].value, e.elts[1].value)
+        return None
+    if fps is not None:
+        # an if-chain (or switch): the outcome per name
+        for name in want_fmt:
+            def leaf(e, name=name):
+                subj = e.left if isinstance(e, ast.Compare) else None
+                if isinstance(subj, ast.Call) and isinstance(subj.func, ast.Attribute) and subj.func.attr in ('lower', 'toLowerCase', 'strip') and not subj.args:
+                    subj = subj.func.value       # names are compared in lower case
+                if isinstance(e, ast.Compare) and len(e.ops) == 1 and is_name(subj, fparam) and isinstance(e.comparators[0], ast.Constant) and isinstance(e.ops[0], (ast.Eq, ast.NotEq)):
+                    return (e.comparators[0].value == name) == isinstance(e.ops[0], ast.Eq)
+                return None
+            outs = {pair_of(q.value) for q in fps if q.kind == 'return' and pathsem.consistent(q, leaf)}
+            if len(outs) == 1 and None not in outs:
+                got_fmt[name] = outs.pop()
+    if len(got_fmt) < len(want_fmt):
+        # table-driven: a constant table (in the function or at module level) that pairs the names with (delimiter, policy)
+        used = {x.id for x in ast.walk(f) if isinstance(x, ast.Name)}
+        cands = [x for x in ast.walk(f) if isinstance(x, (ast.Dict, ast.Tuple, ast.List))]
+        cands += [st.value for st in p.modules['rbql_csv'].body if isinstance(st, ast.Assign) and len(st.targets) == 1 and isinstance(st.targets[0], ast.Name) and st.targets[0].id in used]
+        for c_ in cands:
+            ent = {}
+            if isinstance(c_, ast.Dict):
+                for k_, v_ in zip(c_.keys, c_.values):
+                    if isinstance(k_, ast.Constant) and pair_of(v_):
+                        ent[k_.value] = pair_of(v_)
+            elif isinstance(c_, (ast.Tuple, ast.List)):
+                for e_ in c_.elts:
+                    if isinstance(e_, (ast.Tuple, ast.List)) and len(e_.elts) == 2 and isinstance(e_.elts[0], ast.Constant) and pair_of(e_.elts[1]):
+                        ent[e_.elts[0].value] = pair_of(e_.elts[1])
+            if set(ent) >= set(want_fmt):
+                got_fmt = {k_: ent[k_] for k_ in want_fmt}
+    if len(got_fmt) < len(want_fmt):
+        rep.undecided('out-format table', f, 'how interpret_named_csv_format maps the names csv / tsv / monocolumn is not recognised ({} resolved)'.format(sorted(got_fmt)))
+    else:
+        wrong = {k_: v_ for k_, v_ in got_fmt.items() if want_fmt[k_] != v_}
+        rep.decide(not wrong, 'out-format table', f, 'csv -> (",", quoted), tsv -> (TAB, simple), monocolumn', 'named output formats changed: {}'.format(wrong))
     r = p.func('rbql_main', 'run_with_python_csv')
     oko = "(delim, policy) if args.out_format == 'input' else rbql_csv.interpret_named_csv_format(args.out_format)" in node_text(r, 6000)
     rep.decide(oko, 'out-format input', r, '--out-format input reuses the input dialect', '--out-format input no longer reuses the input delimiter and policy')
@@ -652,8 +694,15 @@ def rule_cl_options(cx, rep, port='py'):
     mod = p.modules['rbql_main']
     funcs = {st.name: st for st in mod.body if isinstance(st, ast.FunctionDef)}
 
-    def declared(fd):
+    def declared(fd, depth=0):
         out = set()
+        # the parser may be assembled by helpers the entry point calls
+        if depth < 3:
+            for c in ast.walk(fd):
+                if isinstance(c, ast.Call) and isinstance(c.func, ast.Name) and c.func.id in funcs and funcs[c.func.id] is not fd:
+                    g = funcs[c.func.id]
+                    if any(isinstance(x, ast.Attribute) and x.attr in ('add_argument', 'ArgumentParser') for x in ast.walk(g)):
+                        out |= declared(g, depth + 1)
         for c in ast.walk(fd):
             if isinstance(c, ast.Call) and isinstance(c.func, ast.Attribute) and c.func.attr == 'add_argument' and c.args:
                 names = [a.value for a in c.args if isinstance(a, ast.Constant) and isinstance(a.value, str)]
@@ -733,6 +782,9 @@ def rule_cl_options(cx, rep, port='py'):
             rep.undecided(entry + ' options', fd, 'parse_args() result not found')
             continue
         decl = declared(fd)
+        if not decl:
+            rep.undecided(entry + ' options', fd, 'no add_argument() declaration found for the parser of ' + entry)
+            continue
         reads, stores = {}, {}
         visit(fd, argsvar[0], {}, set(), reads, stores)
         n += len(reads)
@@ -743,3 +795,69 @@ def rule_cl_options(cx, rep, port='py'):
         else:
             rep.holds(entry + ' options', fd, '{} option attributes read, all declared by the parser or set by the code ({} declared)'.format(len(reads), len(decl)))
     rep.require_count('option reads', n, 20, (p.files['rbql_main'], 0))
+
+
+def rule_if_eot(cx, rep, port='py'):
+    """adapters that pull rows from a cursor / iterator report the end of the table exactly when the source does: get_record returns
+    None on the path where fetchone() gave None (fetchmany() gave nothing, next() was exhausted).  A path that returns None on
+    another ground - e.g. "the last batch was shorter than the batch size" - is sound only while that yardstick cannot change
+    between reads; if other code assigns it, rows are silently cut off."""
+    from .. import pathsem
+    p = cx.py
+    n = 0
+    for modname, cname in (('rbql_sqlite', 'SqliteRecordIterator'), ('rbql_pandas', 'DataframeIterator')):
+        c = p.cls(modname, cname, required=False)
+        if c is None:
+            continue
+        ms = roles.methods(c)
+        gr = ms.get('get_record')
+        if gr is None:
+            continue
+        n += 1
+        key = '{}.get_record end of table'.format(cname)
+        ps = pathsem.paths(gr)
+        if ps is None:
+            rep.undecided(key, gr, 'get_record is not summarisable as paths')
+            continue
+        suspicious = None
+        for q in ps:
+            if not (q.kind == 'return' and (q.value is None or is_none(q.value))):
+                continue
+            grounds_ok = False
+            for atom, pol in pathsem.atoms(q.conds):
+                t = node_text(atom, 300)
+                if isinstance(atom, ast.Compare) and len(atom.ops) == 1 and is_none(atom.comparators[0]) and pol == isinstance(atom.ops[0], (ast.Is, ast.Eq)) and ('fetchone' in t or 'next(' in t):
+                    grounds_ok = True
+                if ('fetchmany' in t or 'fetchall' in t) and not any(isinstance(x, ast.Attribute) and x.attr.endswith('size') for x in ast.walk(atom)):
+                    grounds_ok = True
+                # next(it, SENTINEL) is SENTINEL
+                if isinstance(atom, ast.Compare) and len(atom.ops) == 1 and isinstance(atom.ops[0], (ast.Is, ast.Eq)) and pol:
+                    for a_, b_ in ((atom.left, atom.comparators[0]), (atom.comparators[0], atom.left)):
+                        if isinstance(a_, ast.Call) and dotted(a_.func) == 'next' and len(a_.args) == 2 and ast.dump(a_.args[1]) == ast.dump(b_):
+                            grounds_ok = True
+                if q.in_handler and 'StopIteration' in ' '.join(q.in_handler):
+                    grounds_ok = True
+            if q.in_handler and 'StopIteration' in ' '.join(q.in_handler):
+                grounds_ok = True
+            if not grounds_ok:
+                # which attributes decide this path?
+                attrs = sorted({dotted(x) for t_, _ in q.conds for x in ast.walk(t_) if isinstance(x, ast.Attribute) and (dotted(x) or '').startswith('self.') and not isinstance(getattr(x, 'parent', None), ast.Attribute)})
+                suspicious = (q, attrs)
+                break
+        if suspicious is None:
+            rep.holds(key, gr, 'None is returned only where the source reported its end')
+            continue
+        q, attrs = suspicious
+        # is one of the deciding attributes assigned from outside the class (after construction)?
+        outside = []
+        for mname2, mod2 in p.modules.items():
+            for st in ast.walk(mod2):
+                if isinstance(st, ast.Assign):
+                    for t_ in st.targets:
+                        if isinstance(t_, ast.Attribute) and ('self.' + t_.attr) in attrs and not (isinstance(t_.value, ast.Name) and t_.value.id == 'self'):
+                            outside.append((t_.attr, st))
+        if outside:
+            rep.violated(key, q.node if q.node is not None else gr, 'get_record reports the end of the table when `{}`, and `{}` is assigned from outside the iterator (line {}) after rows may already have been read: a full batch then counts as a short one and the rest of the table is silently dropped'.format(' / '.join(node_text(t_, 50) for t_, _ in q.conds[-2:]), outside[0][0], outside[0][1].lineno))
+        else:
+            rep.undecided(key, q.node if q.node is not None else gr, 'get_record returns None on a path decided by {} rather than by the source reporting its end'.format(attrs))
+    rep.require_count('cursor-backed iterators', n, 2, (p.files['rbql_engine'], 0))
